@@ -3,6 +3,7 @@ package gen
 import (
 	"fmt"
 	"math/big"
+	"strings"
 
 	"pgregory.net/rapid"
 
@@ -388,6 +389,18 @@ func (g *G) fnAttrsFor(group bool) []string {
 	if g.chance("allocsize", 1, 12) {
 		out = append(out, g.pick("vsr", []string{"vscale_range(1,16)", "vscale_range(8)", "vscale_range(2,2)"}))
 	}
+	if g.cfg.LLVM15 && g.chance("llvm15attr", 1, 2) {
+		a := g.pick("l15", []string{"uwtable(sync)", "uwtable(async)", "uwtable(async)", `allockind("alloc,zeroed")`, `allockind("free")`})
+		// one unwind-table attribute per list
+		var kept []string
+		for _, o := range out {
+			if !(strings.HasPrefix(a, "uwtable") && o == "uwtable") {
+				kept = append(kept, o)
+			}
+		}
+		out = append(kept, a)
+		g.feat("top/llvm15-function-attribute")
+	}
 	return out
 }
 
@@ -439,6 +452,10 @@ func (g *G) globalHeader() *am.Global {
 	}
 	if g.chance("galign", 1, 3) {
 		gl.Align = 1 << uint(g.rng("galignlog", 0, 8))
+	}
+	if g.cfg.LLVM15 && g.chance("gsanitizer", 1, 5) {
+		gl.Sanitizer = g.pick("gsan", []string{"no_sanitize_address", "no_sanitize_hwaddress", "sanitize_memtag", "sanitize_address_dyninit"})
+		g.feat("top/llvm15-global-sanitizer")
 	}
 	if !g.off("global-attrs") && g.chance("gattrs", 1, 6) {
 		// attributes of a global variable (LLVM 14 allows string attributes here; clang writes "bss-section" etc.)
